@@ -1,3 +1,385 @@
+(* C03 — each dataset-manipulation wrapper selects exactly the promised samples.
+   Statements only; proofs are in Proofs.v.  Quantification: every class layout
+   `classes` (label of sample 0, 1, ...; incl. empty, single-sample and absent classes),
+   every number of classes C, every constructor argument and every draw sequence that
+   satisfies the generator's contract (rng.shuffle / rng.permutation return a
+   permutation).  `Some out` = the constructor returned and selected the samples `out`
+   in this order, `None` = it raised.
+
+   Percent bounds: the percent wrappers are stated over abstract percent operations O
+   (0., 1., the range assertion, <=, and the percent -> index map p_cut) with the contract
+   pct_contract O n (0. and 1. admissible and extremal; cut 0. = 0, cut 1. = n,
+   0 <= cut p <= n).  Fractions with floor/ceil (rat_ops) meet the contract for every n; the
+   executable model instantiates O with binary64 (Model.float_ops: product, then int()/np.ceil)
+   and the harness checks the contract clauses for that instance on every generated case. *)
+From Coq Require Import ZArith List Bool Permutation Sorted.
+Import ListNotations.
 From KD Require Import C03.Model C03.Spec C03.Proofs.
-Theorem placeholder_C03 : True. Proof. exact placeholder. Qed.
-Print Assumptions placeholder_C03.
+Open Scope Z_scope.
+
+(* ---------------- ClassFilterWrapper ---------------- *)
+Theorem class_filter_spec : forall valid cs classes,
+    class_filter valid cs classes
+    = spec_class_filter classes (fun c => Bool.eqb (existsb (Z.eqb c) cs) valid).
+Proof. exact class_filter_spec_l. Qed.
+Print Assumptions class_filter_spec.
+
+Theorem class_filter_valid_keeps_exactly_allowed : forall cs classes i,
+    In i (class_filter true cs classes) <-> 0 <= i < zlen classes /\ In (cls classes i) cs.
+Proof. exact class_filter_valid_l. Qed.
+Print Assumptions class_filter_valid_keeps_exactly_allowed.
+
+Theorem class_filter_invalid_drops_exactly_forbidden : forall cs classes i,
+    In i (class_filter false cs classes) <-> 0 <= i < zlen classes /\ ~ In (cls classes i) cs.
+Proof. exact class_filter_invalid_l. Qed.
+Print Assumptions class_filter_invalid_drops_exactly_forbidden.
+
+Theorem class_filter_keeps_original_order : forall valid cs classes,
+    StronglySorted Z.lt (class_filter valid cs classes).
+Proof. exact class_filter_sorted_l. Qed.
+Print Assumptions class_filter_keeps_original_order.
+
+(* ---------------- ranges: PercentFilterWrapper, SubsetWrapper ---------------- *)
+Theorem ranges_contiguous :     (forall P (O : pct_ops P) n f t cf ct out, percent_filter_g O n f t cf ct = Some out ->
+        out = zrange (p_cut O cf (odflt f (p_zero O)) n) (p_cut O ct (odflt t (p_one O)) n)) /\
+    (forall n s e out, subset_range n s e = Some out ->
+        out = zrange (odflt s 0) (Z.min (odflt e n) n) /\ odflt s 0 <= Z.min (odflt e n) n) /\
+    (forall P (O : pct_ops P) n s e out, subset_percent_g O n s e = Some out ->
+        out = zrange (p_cut O false (odflt s (p_zero O)) n) (p_cut O false (odflt e (p_one O)) n)) /\
+    (* a block a .. b-1 *)
+    (forall a b, zlen (zrange a b) = Z.max 0 (b - a) /\
+                 forall k, (k < length (zrange a b))%nat -> nth k (zrange a b) 0 = a + Z.of_nat k).
+Proof. exact ranges_contiguous_l. Qed.
+Print Assumptions ranges_contiguous.
+
+(* [0,a) ++ [a,b) ++ [b,n) = everything, for EVERY bound incl. 0 and n / 0.0 and 1.0 *)
+Theorem complementary_ranges_partition_index : forall n a b,
+    0 <= a <= b -> a <= n ->
+    exists A B D,
+      subset_range n None (Some a) = Some A /\
+      subset_range n (Some a) (Some b) = Some B /\
+      subset_range n (Some (Z.min b n)) None = Some D /\
+      A ++ B ++ D = zrange 0 n.
+Proof. exact subset_range_partition. Qed.
+Print Assumptions complementary_ranges_partition_index.
+
+Theorem complementary_ranges_partition_index2 : forall n c,
+    0 <= c <= n ->
+    exists A D, subset_range n None (Some c) = Some A /\ subset_range n (Some c) None = Some D /\
+                A ++ D = zrange 0 n.
+Proof. exact subset_range_partition2. Qed.
+Print Assumptions complementary_ranges_partition_index2.
+
+Theorem complementary_ranges_partition_percent_filter : forall P (O : pct_ops P) n p q c1 c2,
+    pct_contract O n -> p_ok O p = true -> p_ok O q = true -> p_cut O c1 p n <= p_cut O c2 q n ->
+    exists A B D,
+      percent_filter_g O n None (Some p) false c1 = Some A /\
+      percent_filter_g O n (Some p) (Some q) c1 c2 = Some B /\
+      percent_filter_g O n (Some q) None c2 false = Some D /\
+      A ++ B ++ D = zrange 0 n.
+Proof. exact (@percent_filter_partition). Qed.
+Print Assumptions complementary_ranges_partition_percent_filter.
+
+Theorem complementary_ranges_partition_percent_filter2 : forall P (O : pct_ops P) n p c,
+    pct_contract O n -> p_ok O p = true ->
+    exists A D,
+      percent_filter_g O n None (Some p) false c = Some A /\
+      percent_filter_g O n (Some p) None c false = Some D /\
+      A ++ D = zrange 0 n.
+Proof. exact (@percent_filter_partition2). Qed.
+Print Assumptions complementary_ranges_partition_percent_filter2.
+
+Theorem complementary_ranges_partition_subset_percent : forall P (O : pct_ops P) n p q,
+    pct_contract O n -> p_ok O p = true -> p_ok O q = true -> p_leb O p q = true ->
+    p_cut O false p n <= p_cut O false q n ->
+    exists A B D,
+      subset_percent_g O n None (Some p) = Some A /\
+      subset_percent_g O n (Some p) (Some q) = Some B /\
+      subset_percent_g O n (Some q) None = Some D /\
+      A ++ B ++ D = zrange 0 n.
+Proof. exact (@subset_percent_partition). Qed.
+Print Assumptions complementary_ranges_partition_subset_percent.
+
+(* non-vacuity: exact fractions with floor/ceil meet the contract for every n >= 0; the
+   partition at the bounds 0 and n; (that binary64 meets the computable clauses is evaluated
+   by the harness on every case, see Check.float_contract_ok) *)
+Theorem pct_contract_satisfiable : forall n, 0 <= n -> pct_contract rat_ops n.
+Proof. exact rat_ops_contract. Qed.
+Print Assumptions pct_contract_satisfiable.
+
+Example partition_at_zero : exists A D,
+    subset_range 5 None (Some 0) = Some A /\ subset_range 5 (Some 0) None = Some D /\ A = [] /\ D = [0; 1; 2; 3; 4].
+Proof. do 2 eexists. repeat split. Qed.
+Example partition_percent_at_zero_and_one : exists A B D,
+    percent_filter_g rat_ops 5 None (Some (0, 1)) false false = Some A /\
+    percent_filter_g rat_ops 5 (Some (0, 1)) (Some (1, 1)) false false = Some B /\
+    percent_filter_g rat_ops 5 (Some (1, 1)) None false false = Some D /\
+    A = [] /\ B = [0; 1; 2; 3; 4] /\ D = [].
+Proof. do 3 eexists. repeat split. Qed.
+
+(* ---------------- ShuffleWrapper ---------------- *)
+Theorem shuffle_perm : forall classes draw,
+    Permutation draw (zrange 0 (zlen classes)) ->
+    Permutation (shuffle (zlen classes) draw) (all_ids classes).
+Proof. exact shuffle_perm_l. Qed.
+Print Assumptions shuffle_perm.
+
+(* ---------------- SortByClassWrapper ---------------- *)
+(* `before classes i j`: i has the smaller class, or the same class and the smaller id *)
+Theorem sort_by_class_perm_sorted_stable : forall classes C,
+    labels_in classes C ->
+    Permutation (sort_by_class classes C) (all_ids classes) /\
+    StronglySorted (before classes) (sort_by_class classes C).
+Proof. exact sort_by_class_l. Qed.
+Print Assumptions sort_by_class_perm_sorted_stable.
+
+(* ... and that determines the selection: it is THE stable sort by class *)
+Theorem sort_by_class_is_the_stable_sort : forall classes C out,
+    labels_in classes C -> Permutation out (all_ids classes) -> StronglySorted (before classes) out ->
+    out = sort_by_class classes C.
+Proof. exact stable_sort_unique. Qed.
+Print Assumptions sort_by_class_is_the_stable_sort.
+
+Example sort_example : labels_in [2; 0; 1; 0; 2] 3 /\ sort_by_class [2; 0; 1; 0; 2] 3 = [1; 3; 2; 0; 4].
+Proof. split. now apply labels_in_b. reflexivity. Qed.
+
+(* ---------------- IntraClassShuffleWrapper ---------------- *)
+Theorem intra_class_keeps_class_sequence : forall classes C draws,
+    labels_in classes C -> intra_draws_ok classes C draws ->
+    exists out, intra_class_shuffle classes C draws = Some out /\
+                Permutation out (all_ids classes) /\ map (cls classes) out = classes.
+Proof. exact intra_class_l. Qed.
+Print Assumptions intra_class_keeps_class_sequence.
+
+Example intra_example :
+    labels_in [1; 0; 1; 0] 2 /\ intra_draws_ok [1; 0; 1; 0] 2 [[3; 1]; [0; 2]] /\
+    intra_class_shuffle [1; 0; 1; 0] 2 [[3; 1]; [0; 2]] = Some [0; 3; 2; 1].
+Proof.
+  split. now apply labels_in_b. split; [|reflexivity].
+  constructor. apply perm_swap. constructor. apply Permutation_refl. constructor.
+Qed.
+
+(* ---------------- RepeatWrapper ---------------- *)
+Theorem repeat_spec : forall classes r,
+    0 < zlen classes -> 0 < r ->
+    repeat_wrapper (zlen classes) (Some r) None = Some (copies classes r).
+Proof. exact repeat_reps_l. Qed.
+Print Assumptions repeat_spec.
+
+Theorem repeat_min_size_spec : forall classes m,
+    0 < zlen classes -> 0 < m ->
+    let n := zlen classes in
+    let k := (m + n - 1) / n in
+    repeat_wrapper n None (Some m) = Some (copies classes k) /\
+    zlen (copies classes k) = k * n /\ (k - 1) * n < m <= k * n.
+Proof. exact repeat_min_size_l. Qed.
+Print Assumptions repeat_min_size_spec.
+
+(* whole copies in round-robin order: position j holds sample j mod n *)
+Theorem repeat_round_robin : forall classes k j,
+    0 <= j < Z.of_nat k * zlen classes ->
+    nth (Z.to_nat j) (concat (repeat (all_ids classes) k)) (-1) = j mod zlen classes.
+Proof. exact copies_nth_l. Qed.
+Print Assumptions repeat_round_robin.
+
+(* ---------------- OversamplingWrapper ---------------- *)
+Theorem oversampling_keeps_all : forall ex classes C out i,
+    oversample ex classes C = Some out -> labels_in classes (n_classes_eff C) ->
+    0 <= i < zlen classes -> 1 <= occ i out.
+Proof. exact oversample_keeps_all_l. Qed.
+Print Assumptions oversampling_keeps_all.
+
+Theorem oversampling_multiply_starts_with_dataset : forall classes C out,
+    oversample false classes C = Some out -> exists extra, out = all_ids classes ++ extra.
+Proof. exact oversample_multiply_prefix. Qed.
+Print Assumptions oversampling_multiply_starts_with_dataset.
+
+(* mode="multiply": every sample of a present class c is taken floor(max/count_c) times, hence
+   max/2 < count'_c <= max; absent classes stay absent *)
+Theorem oversampling_balance : forall classes C out,
+    oversample false classes C = Some out ->
+    let mx := mxc classes (n_classes_eff C) in
+    (forall i, 0 <= i < zlen classes -> 0 <= cls classes i < n_classes_eff C ->
+               occ i out = mx / count_of (cls classes i) classes) /\
+    (forall c, 0 <= c < n_classes_eff C -> 0 < count_of c classes ->
+               class_occ classes c out = count_of c classes * (mx / count_of c classes) /\
+               mx < 2 * class_occ classes c out /\ class_occ classes c out <= mx) /\
+    (forall c, count_of c classes = 0 -> class_occ classes c out = 0).
+Proof. exact oversampling_balance_l. Qed.
+Print Assumptions oversampling_balance.
+
+(* mode="exact": every present class reaches exactly the majority count, every sample of it is
+   taken floor(max/count_c) or one more time; absent classes contribute nothing *)
+Theorem exact_reaches_max : forall classes C out,
+    oversample true classes C = Some out ->
+    let mx := mxc classes (n_classes_eff C) in
+    (forall c, 0 <= c < n_classes_eff C ->
+               class_occ classes c out = if count_of c classes =? 0 then 0 else mx) /\
+    (forall i, 0 <= i < zlen classes -> 0 <= cls classes i < n_classes_eff C ->
+               let q := mx / count_of (cls classes i) classes in 1 <= q /\ q <= occ i out <= q + 1).
+Proof. exact exact_reaches_max_l. Qed.
+Print Assumptions exact_reaches_max.
+
+(* the per-class loop (fuel max+1) always finishes — also when classes are absent; the
+   constructor raises only if the labels are invalid or no sample is labelled *)
+Theorem exact_terminates : forall classes C counts,
+    class_counts classes C = Some counts ->
+    (oversample true classes C = None <-> mxc classes (n_classes_eff C) = 0).
+Proof. exact exact_terminates_l. Qed.
+Print Assumptions exact_terminates.
+
+Theorem exact_succeeds_on_labelled_data : forall classes C,
+    classes <> [] -> labels_in classes (n_classes_eff C) -> exists out, oversample true classes C = Some out.
+Proof. exact exact_succeeds_l. Qed.
+Print Assumptions exact_succeeds_on_labelled_data.
+
+(* why the repair was needed: the loop of a class without samples makes no progress for any fuel *)
+Theorem exact_loop_of_absent_class_diverges : forall fuel remaining,
+    0 < remaining -> exact_loop fuel [] remaining = None.
+Proof. exact exact_loop_empty_diverges. Qed.
+Print Assumptions exact_loop_of_absent_class_diverges.
+
+Example oversample_absent_class_example :
+    labels_in [0; 0; 2; 2; 2] 3 /\
+    oversample true [0; 0; 2; 2; 2] 3 = Some [0; 1; 0; 2; 3; 4] /\
+    oversample false [0; 2; 2; 2; 2] 3 = Some [0; 1; 2; 3; 4; 0; 0; 0].
+Proof. split. now apply labels_in_b. split; reflexivity. Qed.
+
+(* ---------------- FewshotWrapper ---------------- *)
+(* min(shots, count_c) distinct samples of every class 0..max(label), grouped by class *)
+Theorem fewshot_counts : forall classes shots draws,
+    classes <> [] -> 0 <= shots -> fewshot_draws_ok classes draws ->
+    exists out, fewshot classes shots draws = Some out /\
+      NoDup out /\ (forall x, In x out -> 0 <= x < zlen classes) /\
+      StronglySorted (fun i j => cls classes i <= cls classes j) out /\
+      (forall c, 0 <= c < fewshot_nc classes -> class_occ classes c out = Z.min shots (count_of c classes)) /\
+      (forall c, ~ (0 <= c < fewshot_nc classes) -> class_occ classes c out = 0).
+Proof. exact fewshot_l. Qed.
+Print Assumptions fewshot_counts.
+
+Theorem fewshot_covers_every_label : forall classes c, In c classes -> c < fewshot_nc classes.
+Proof. exact fewshot_nc_covers. Qed.
+Print Assumptions fewshot_covers_every_label.
+
+Example fewshot_example :
+    fewshot_draws_ok [1; 0; 1; 1] [[0]; [2; 0; 1]] /\ fewshot [1; 0; 1; 1] 2 [[0]; [2; 0; 1]] = Some [1; 3; 0].
+Proof.
+  split; [|reflexivity]. constructor. apply Permutation_refl. constructor; [|constructor].
+  change (Permutation [2; 0; 1] [0; 1; 2]). apply (Permutation_cons_app [0; 1] [] 2). apply Permutation_refl.
+Qed.
+
+(* ---------------- ClasswiseSubsetWrapper ---------------- *)
+(* class after class, the samples with rank [s, e) inside their class; with
+   check_enough_samples the constructor raises iff some class has fewer than e samples *)
+Theorem classwise_counts : forall classes C s e check,
+    labels_in classes (n_classes_eff C) -> is_some s || is_some e = true ->
+    let n := zlen classes in
+    let e' := Z.min (odflt e n) n in
+    let s' := odflt s 0 in
+    0 <= s' <= e' ->
+    classwise_range classes C s e check =
+      (if check && existsb (fun c => count_of c classes <? e') (zrange 0 C) then None
+       else Some (classwise_val classes C (fun _ => s') (fun _ => e'))) /\
+    (forall c, 0 <= c < C ->
+       class_occ classes c (classwise_val classes C (fun _ => s') (fun _ => e'))
+       = Z.max 0 (Z.min (e' - s') (count_of c classes - s'))) /\
+    (forall x, In x (classwise_val classes C (fun _ => s') (fun _ => e')) ->
+       0 <= x < zlen classes /\ 0 <= cls classes x < C).
+Proof. exact classwise_counts_l. Qed.
+Print Assumptions classwise_counts.
+
+Theorem classwise_percent_counts : forall P (O : pct_ops P) classes C s e,
+    labels_in classes (n_classes_eff C) -> is_some s || is_some e = true ->
+    p_ok O (odflt s (p_zero O)) = true -> p_ok O (odflt e (p_one O)) = true ->
+    p_leb O (odflt s (p_zero O)) (odflt e (p_one O)) = true ->
+    classwise_percent_g O classes C s e =
+    Some (classwise_val classes C (p_cut O false (odflt s (p_zero O))) (p_cut O false (odflt e (p_one O)))).
+Proof. exact (@classwise_percent_eq). Qed.
+Print Assumptions classwise_percent_counts.
+
+(* the selection in Spec.v's vocabulary: class after class, the samples whose rank inside their
+   class (number of earlier samples of the same class) lies in [lo, hi) *)
+Theorem classwise_is_rank_selection : forall classes C lo hi,
+    (forall m, 0 <= m -> 0 <= lo m) -> classwise_val classes C lo hi = spec_classwise classes lo hi C.
+Proof. exact classwise_val_spec. Qed.
+Print Assumptions classwise_is_rank_selection.
+
+(* complementary class-wise selections partition the dataset, for every bound incl. 0 *)
+Theorem classwise_complementary_partition_index : forall classes C k,
+    labels_in classes C -> labels_in classes (n_classes_eff C) -> 0 <= k <= zlen classes ->
+    exists A B, classwise_range classes C None (Some k) false = Some A /\
+                classwise_range classes C (Some k) None false = Some B /\
+                Permutation (A ++ B) (all_ids classes).
+Proof. exact classwise_range_partition. Qed.
+Print Assumptions classwise_complementary_partition_index.
+
+Theorem classwise_complementary_partition_percent : forall P (O : pct_ops P) classes C p,
+    labels_in classes C -> labels_in classes (n_classes_eff C) ->
+    (forall m, 0 <= m -> pct_contract O m) -> p_ok O p = true ->
+    exists A B, classwise_percent_g O classes C None (Some p) = Some A /\
+                classwise_percent_g O classes C (Some p) None = Some B /\
+                Permutation (A ++ B) (all_ids classes).
+Proof. exact (@classwise_percent_partition). Qed.
+Print Assumptions classwise_complementary_partition_percent.
+
+Example classwise_example :
+    labels_in [0; 1; 0; 1; 1] 2 /\
+    classwise_range [0; 1; 0; 1; 1] 2 None (Some 0) false = Some [] /\
+    classwise_range [0; 1; 0; 1; 1] 2 (Some 0) (Some 2) true = Some [0; 2; 1; 3] /\
+    classwise_range [0; 1; 0; 1; 1] 2 (Some 0) (Some 3) true = None.
+Proof. split. now apply labels_in_b. repeat split; reflexivity. Qed.
+
+(* ---------------- executable spec predicates used by the correspondence check ---------------- *)
+Theorem spec_is_permutation_sound : forall classes out,
+    is_permutation classes out = true <-> Permutation out (all_ids classes).
+Proof. exact is_permutation_iff. Qed.
+Print Assumptions spec_is_permutation_sound.
+
+Theorem spec_sorted_stable_sound : forall classes out,
+    sorted_stable classes out = true <-> StronglySorted (before classes) out.
+Proof. exact sorted_stable_iff. Qed.
+Print Assumptions spec_sorted_stable_sound.
+
+Theorem spec_list_eqb_sound : forall a b, list_eqb a b = true <-> a = b.
+Proof. exact list_eqb_eq. Qed.
+Print Assumptions spec_list_eqb_sound.
+
+(* the model's selections satisfy exactly the predicates the correspondence check evaluates on
+   the real selections (Check.spec_holds) *)
+Theorem sort_by_class_meets_spec : forall classes C,
+    labels_in classes C ->
+    is_permutation classes (sort_by_class classes C) && sorted_stable classes (sort_by_class classes C) = true.
+Proof. exact sort_spec_bool. Qed.
+Print Assumptions sort_by_class_meets_spec.
+
+Theorem intra_class_meets_spec : forall classes C draws out,
+    labels_in classes C -> intra_draws_ok classes C draws -> intra_class_shuffle classes C draws = Some out ->
+    is_permutation classes out && list_eqb (map (cls classes) out) classes = true.
+Proof. exact intra_spec_bool. Qed.
+Print Assumptions intra_class_meets_spec.
+
+Theorem oversampling_meets_spec_keeps_all : forall ex classes C out,
+    oversample ex classes C = Some out -> labels_in classes (n_classes_eff C) -> keeps_all classes out = true.
+Proof. exact keeps_all_bool. Qed.
+Print Assumptions oversampling_meets_spec_keeps_all.
+
+Theorem oversampling_meets_spec_multiply : forall classes C out,
+    oversample false classes C = Some out -> balanced_multiply classes (n_classes_eff C) out = true.
+Proof. exact balanced_multiply_bool. Qed.
+Print Assumptions oversampling_meets_spec_multiply.
+
+Theorem oversampling_meets_spec_exact : forall classes C out,
+    oversample true classes C = Some out -> balanced_exact classes (n_classes_eff C) out = true.
+Proof. exact balanced_exact_bool. Qed.
+Print Assumptions oversampling_meets_spec_exact.
+
+(* ---------------- function of arguments and draws ---------------- *)
+(* In the model this is true by construction (run is a Gallina function of the labels, C, the
+   constructor arguments and the recorded draws — no hidden state); that the REAL constructors
+   read nothing else (no global generator, no dependence on the label provider) is what the
+   harness checks on every case (second construction under another global RNG state, RNG-state
+   tripwire). *)
+Theorem selection_is_function_of_args_and_draws : forall P (O : pct_ops P) classes C w o1 o2,
+    run_g O classes C w = o1 -> run_g O classes C w = o2 -> o1 = o2.
+Proof. exact (@run_function). Qed.
+Print Assumptions selection_is_function_of_args_and_draws.
